@@ -10,7 +10,7 @@ ID = 'C08'
 COQ_MODEL = 'model.TsProps'
 COQ_CORR = 'corr_C08'
 N_QUICK = 800
-N_THOROUGH = 5000
+N_THOROUGH = 4000
 THOROUGH_EXHAUSTIVE = True
 VM_CASES = 30
 RULE = ('two kinds of cases on ONE application. (ops) the application\'s Request and Response objects are built on '
